@@ -43,6 +43,10 @@ CANARIES = [
     ("P", _t(("with", "S0", (("y", ("L", (("c", _t(("with", "S0", (("y", IA), ("probe",))))),
                                            ("c", _t(("probe",), ("y", IB), ("probe",)))))),))), (), ()),
     ("P", _t(("y", ("L", (("c", _t(("sync", _t(("y", IA)), "call"), ("y", IB))), ("c", _t(("y", IB))))))), (), ()),
+    # an "idle pass": the second child flushes, out of band, the batch the first child is parked on, so one pass of
+    # the wait loop ends with the root blocked and nothing to flush (twice in a row in the second half)
+    ("P", _t(("y", ("L", (("c", _t(("y", IA))), ("c", _t(("iv", "a")))))),
+             ("y", ("L", (("c", _t(("y", IB))), ("c", _t(("iv", "b"))))))), (), ()),
 ]
 # deep synchronous re-entry (depth 3) with a failure at the bottom, as an extra first computation
 NESTED = [
